@@ -77,7 +77,7 @@ func (e *Enc) callCommon(c *ssa.CallCommon, pos token.Pos, hint string, rt types
 			panic(unsupported("recursive call without a function-level decreases clause"))
 		}
 		entryV := e.env(e.entry, e.entry, nil).tr(e.c.Decreases.Expr, mathIntType)
-		callEnv := &Env{w: w, pkg: e.pkgOf(ct), vars: vars, pre: e.cur, cur: e.cur, W0: e.cur.W, decl: e.declare, useMem: e.useMem, ghost: e.ghost}
+		callEnv := &Env{w: w, pkg: e.pkgOf(ct), vars: vars, pre: e.cur, cur: e.cur, W0: e.cur.W, decl: e.declare, useMem: e.useMem, ghost: e.ghost, noteWF: e.noteWF}
 		callV := callEnv.tr(e.c.Decreases.Expr, mathIntType)
 		var g string
 		if entryV.Sort == "Int" {
@@ -197,7 +197,7 @@ func (e *Enc) applyContract(ct *Contract, guard string, vars map[string]Term, rt
 			wNew, aNew = e.cur.W, e.cur.A
 		}
 	}
-	envPre := &Env{w: w, pkg: calleePkg, vars: vars, pre: pre, cur: pre, W0: pre.W, decl: e.declare, useMem: e.useMem, ghost: e.ghost}
+	envPre := &Env{w: w, pkg: calleePkg, vars: vars, pre: pre, cur: pre, W0: pre.W, decl: e.declare, useMem: e.useMem, ghost: e.ghost, noteWF: e.noteWF}
 	saved := e.curReach
 	if guard != "true" {
 		e.curReach = e.define(e.fresh("g"), "Bool", and(saved, guard))
@@ -254,7 +254,7 @@ func (e *Enc) applyContract(ct *Contract, guard string, vars map[string]Term, rt
 			}
 		}
 	}
-	envPost := &Env{w: w, pkg: calleePkg, vars: nv, pre: pre, cur: e.cur, W0: pre.W, decl: e.declare, useMem: e.useMem, ghost: e.ghost}
+	envPost := &Env{w: w, pkg: calleePkg, vars: nv, pre: pre, cur: e.cur, W0: pre.W, decl: e.declare, useMem: e.useMem, ghost: e.ghost, noteWF: e.noteWF}
 	e.applyGhostSets(ct, envPost, guard)
 	for _, en := range ct.Ensures {
 		var g string
@@ -411,7 +411,7 @@ func (e *Enc) modMems(ct *Contract, m *Clause) (out []MemRef) {
 		vars = bindParams(sig, args)
 	}
 	scratch := &State{mem: map[string]string{}, W: "0", A: "0", H: "0"}
-	env := &Env{w: e.w, pkg: e.pkgOf(ct), vars: vars, pre: scratch, cur: scratch, W0: "0", decl: e.declare, useMem: e.useMem, ghost: e.ghost}
+	env := &Env{w: e.w, pkg: e.pkgOf(ct), vars: vars, pre: scratch, cur: scratch, W0: "0", decl: e.declare, useMem: e.useMem, ghost: e.ghost, noteWF: e.noteWF}
 	for _, a := range e.trAddr(env, m.Expr) {
 		switch {
 		case a.isMap:
@@ -758,7 +758,22 @@ func (e *Enc) unboxed(boxed Term, inner ssa.Value) Term {
 	if _, isIface := inner.Type().Underlying().(*types.Interface); isIface {
 		return Term{boxed.S, boxed.Sort, inner.Type()}
 	}
-	return e.w.ifacePayload(boxed, inner.Type())
+	var direct *Term
+	func() {
+		defer func() {
+			if r := recover(); r != nil {
+				if _, ok := r.(unsupported); !ok {
+					panic(r)
+				}
+			}
+		}()
+		t := e.term(inner)
+		direct = &t
+	}()
+	if direct != nil {
+		return *direct
+	}
+	return e.w.ifacePayload(boxed, inner.Type()) // interior pointer: the boxed copy-in reference
 }
 
 func typeStrNoTags(w *World, t types.Type) string {
@@ -812,7 +827,7 @@ func (e *Enc) callback(ct *Contract, m string, idx int, inner ssa.Value, args []
 		if err != nil {
 			panic(unsupported("bad wellformed option: " + err.Error()))
 		}
-		env := &Env{w: w, pkg: e.pkgOf(ct), vars: vars, pre: preState, cur: preState, W0: preState.W, decl: e.declare, useMem: e.useMem, ghost: e.ghost}
+		env := &Env{w: w, pkg: e.pkgOf(ct), vars: vars, pre: preState, cur: preState, W0: preState.W, decl: e.declare, useMem: e.useMem, ghost: e.ghost, noteWF: e.noteWF}
 		g = env.bool(x)
 	}
 	var cases []implCase
